@@ -58,3 +58,13 @@ Check C19_session_policed_count :
   forall (cfg : pycfg) (fuel : nat) (a : api) (script : list tok), pc_policer cfg = true -> exists n : nat, n_requests (r_events (run_api cfg fuel a script)) n /\ count_police (r_events (run_api cfg fuel a script)) = n.
 Print Assumptions C19_session_policed.
 Print Assumptions C19_session_policed_count.
+
+(* --- and for any PROGRAM on one session: single calls and next() calls on several iterators in any interleaving, iterators
+   used again after they raised or abandoned half-way *)
+Theorem C19_program_policed :
+  forall cfg : pycfg, pc_policer cfg = true -> forall (p : list cmd) (its : list iter_st) (script : list tok) (evs : list ev) (outs : list pyout), well_policed evs -> well_policed (fst (fst (run_prog cfg p its script evs outs))).
+Proof. exact prog_policed. Qed.
+
+Check C19_program_policed :
+  forall cfg : pycfg, pc_policer cfg = true -> forall (p : list cmd) (its : list iter_st) (script : list tok) (evs : list ev) (outs : list pyout), well_policed evs -> well_policed (fst (fst (run_prog cfg p its script evs outs))).
+Print Assumptions C19_program_policed.
